@@ -88,6 +88,10 @@ func (h *histGen) stateOp(g *PGen) *Node {
 		name := fmt.Sprintf("f%d", g.r.Intn(3))
 		h.fpN++
 		body := fmt.Sprintf("(sim:probe 'in-%s (sim:fp %d %d))", name, 500+h.fpN, v)
+		if g.r.Bool() {
+			// fault point in a non-final body form
+			body = fmt.Sprintf("(sim:fp %d 0) (sim:probe 'in-%s %d)", 500+h.fpN, name, v)
+		}
 		op = fmt.Sprintf("(defun %s () %s)", name, body)
 		h.funs = append(h.funs, pkg+":"+name)
 	case 3:
